@@ -369,7 +369,7 @@ def playback(scratch, h, res):
     if not h.playback:
         # model-level builds (slice / agentshim): the counterexample is over the environment model;
         # there is no faithful native playback, the failed checks and the query are what is saved
-        rdir = os.path.join(VERIF, "replays")
+        rdir = os.environ.get("VERIF_REPLAY_DIR") or os.path.join(VERIF, "replays")
         os.makedirs(rdir, exist_ok=True)
         rpath = os.path.join(rdir, "%s.replay.txt" % h.name.split("::")[-1])
         detail = "model-level counterexample (the query uses stubs/models that a native playback cannot apply: %s; re-run: bin/check <ID> --only %s)" % ("; ".join(x.split(" -> ")[0] for x in h.stubs)[:200], h.name.split("::")[-1])
@@ -390,7 +390,7 @@ def playback(scratch, h, res):
             def group(self, i):
                 return self.t
         m = _M("\n".join(blocks[:3]))
-    rdir = os.path.join(VERIF, "replays")
+    rdir = os.environ.get("VERIF_REPLAY_DIR") or os.path.join(VERIF, "replays")
     os.makedirs(rdir, exist_ok=True)
     short = h.name.split("::")[-1]
     rpath = os.path.join(rdir, "%s.replay.txt" % short)
